@@ -305,10 +305,17 @@ where
             let l = sum.clone() / T::from_f64(2.0);
             if max.neq(&min).is_true() {
                 let d = max - min;
-                s = if sum.gt(&T::one()).is_true() {
-                    d.clone() / (T::from_f64(2.0) - sum)
+                let divisor = if sum.gt(&T::one()).is_true() {
+                    T::from_f64(2.0) - sum
                 } else {
-                    d.clone() / sum
+                    sum
+                };
+                // The divisor can round to zero when a component is only just
+                // above 1.0.
+                s = if divisor.neq(&T::zero()).is_true() {
+                    d.clone() / divisor
+                } else {
+                    T::zero()
                 };
                 h = ((sep / d) + coeff) * T::from_f64(60.0);
             };
@@ -336,10 +343,11 @@ where
             let lightness = T::from_f64(0.5) * &sum;
 
             let chroma = max.clone() - &min;
+            // The divisor can round to zero when a component is only just above 1.0.
+            let divisor = sum.gt(&T::one()).select(T::from_f64(2.0) - &sum, sum.clone());
             let saturation = lazy_select! {
-                if min.eq(&max) => T::zero(),
-                else => chroma.clone() /
-                    sum.gt(&T::one()).select(T::from_f64(2.0) - &sum, sum.clone()),
+                if min.eq(&max) | divisor.eq(&T::zero()) => T::zero(),
+                else => chroma.clone() / divisor.clone(),
             };
 
             // Each of these represents an RGB component. The maximum will be false
